@@ -8,8 +8,9 @@ use quote::{format_ident, quote};
 use crate::{
     convert::STD_NUM_NONZERO_PREFIX,
     type_entry::{
-        EnumTagType, StructProperty, StructPropertyRename, TypeEntry, TypeEntryDetails,
-        TypeEntryEnum, TypeEntryNative, TypeEntryNewtype, TypeEntryStruct, Variant, VariantDetails,
+        EnumTagType, StructProperty, StructPropertyRename, StructPropertyState, TypeEntry,
+        TypeEntryDetails, TypeEntryEnum, TypeEntryNative, TypeEntryNewtype, TypeEntryStruct,
+        Variant, VariantDetails, WrappedValue,
     },
     TypeId, TypeSpace,
 };
@@ -51,7 +52,7 @@ impl TypeEntry {
             TypeEntryDetails::Struct(TypeEntryStruct {
                 name, properties, ..
             }) => {
-                let props = value_for_struct_props(properties, value, type_space, scope)?;
+                let props = value_for_struct_props(name, properties, value, type_space, scope)?;
                 let ident = format_ident!("{}", name);
                 quote! { #scope #ident { #( #props ),* }}
             }
@@ -228,7 +229,8 @@ fn value_for_external_enum(
                 Some(quote! { #scope #type_ident::#var_ident ( #( #tup ),* ) })
             }
             VariantDetails::Struct(props) => {
-                let props = value_for_struct_props(props, var_value, type_space, scope)?;
+                let owner = format!("{}{}", type_name, var_ident);
+                let props = value_for_struct_props(&owner, props, var_value, type_space, scope)?;
                 Some(quote! { #scope #type_ident::#var_ident { #( #props ),* } })
             }
         }
@@ -262,7 +264,8 @@ fn value_for_internal_enum(
                     .collect(),
             );
 
-            let props = value_for_struct_props(props, &inner_value, type_space, scope)?;
+            let owner = format!("{}{}", type_name, var_ident);
+            let props = value_for_struct_props(&owner, props, &inner_value, type_space, scope)?;
             Some(quote! { #scope #type_ident::#var_ident { #( #props ),* } })
         }
 
@@ -303,7 +306,8 @@ fn value_for_adjacent_enum(
             Some(quote! { #scope #type_ident::#var_ident ( #( #tup ),* ) })
         }
         (VariantDetails::Struct(props), Some(content_value)) => {
-            let props = value_for_struct_props(props, content_value, type_space, scope)?;
+            let owner = format!("{}{}", type_name, var_ident);
+            let props = value_for_struct_props(&owner, props, content_value, type_space, scope)?;
             Some(quote! { #scope #type_ident::#var_ident { #( #props ),* } })
         }
         _ => None,
@@ -334,7 +338,8 @@ fn value_for_untagged_enum(
                 Some(quote! { #scope #type_ident::#var_ident ( #( #tup ),* ) })
             }
             VariantDetails::Struct(props) => {
-                let props = value_for_struct_props(props, value, type_space, scope)?;
+                let owner = format!("{}{}", type_name, var_ident);
+                let props = value_for_struct_props(&owner, props, value, type_space, scope)?;
                 Some(quote! { #scope #type_ident::#var_ident { #( #props ),* } })
             }
         }
@@ -377,7 +382,11 @@ fn value_for_tuple(
         .collect()
 }
 
+/// `owner` is the name under which the default functions of these properties
+/// are generated: the struct's name, or the enum's name followed by the
+/// variant's for a struct variant.
 fn value_for_struct_props(
+    owner: &str,
     properties: &[StructProperty],
     value: &serde_json::Value,
     type_space: &TypeSpace,
@@ -399,6 +408,16 @@ fn value_for_struct_props(
             let prop_value = type_entry.output_value(type_space, value, scope)?;
 
             Some(quote! { #name_ident: #prop_value })
+        } else if let StructPropertyState::Default(WrappedValue(default)) = &prop.state {
+            // The member is absent from the value but has a default of its
+            // own (which need not be Default::default(), and whose type need
+            // not implement Default): use the function generated for it, as
+            // deserializing the value would.
+            let type_entry = type_space.id_to_entry.get(&prop.type_id).unwrap();
+            let (fn_name, _) = type_entry.default_fn_name(default, owner, &prop.name);
+            let default_fn = syn::parse_str::<syn::Path>(&fn_name).unwrap();
+
+            Some(quote! { #name_ident: #scope #default_fn() })
         } else {
             Some(quote! { #name_ident: Default::default() })
         }
